@@ -77,13 +77,13 @@ def run(ctx):
     scns = []
     for cfg in (["Gen_FedList_big.cfg", "Gen_FedList_static.cfg"] if ctx.thorough
                 else ["Gen_FedList_dyn.cfg", "Gen_FedList_static.cfg"]):
-        got, r = ctx.gen(sd, "FedList", cfg, timeout=2400, label="scenario emission " + cfg)
+        got, r = ctx.gen(sd, "FedList", cfg, timeout=2400, label="scenario emission + invariants/refinement on every emitted path: " + cfg)
         for s in got:
             s["id"] = len(scns) + 1
             s["mode"] = "model"
             scns.append(s)
     ctx.extra["scenarios_emitted"] = len(scns)
-    cap = 40000 if ctx.thorough else 6000
+    cap = 40000 if ctx.thorough else 4000
     if len(scns) > cap:
         # every short scenario, a seeded sample of the long ones
         head = [s for s in scns if len(s["steps"]) <= 1]
@@ -95,7 +95,7 @@ def run(ctx):
         s["sel"] = (s["id"] // 3) % 3
         s["style"] = s["id"] % 10
         s["rseed"] = ctx.seed
-    nrand = 6000 if ctx.thorough else 1200
+    nrand = 6000 if ctx.thorough else 800
     base = 10 ** 6
     for i in range(nrand):
         scns.append(random_scenario(rnd, base + i, ctx.seed, ctx.thorough))
